@@ -14,20 +14,22 @@ for d in sorted(glob.glob('/verif/seeded/*')):
 n_first = sum(1 for r in rows if r.endswith('| yes |'))
 def wave(r):
     n = r.split('|')[1]
-    return 4 if '-w4-' in n else 3 if '-w3-' in n else 2 if '-w2-' in n else 1
-waves = {w: [r for r in rows if wave(r) == w] for w in (1, 2, 3, 4)}
-first = {w: sum(1 for r in waves[w] if r.endswith('| yes |')) for w in (1, 2, 3, 4)}
+    return 5 if '-w5-' in n else 4 if '-w4-' in n else 3 if '-w3-' in n else 2 if '-w2-' in n else 1
+waves = {w: [r for r in rows if wave(r) == w] for w in (1, 2, 3, 4, 5)}
+first = {w: sum(1 for r in waves[w] if r.endswith('| yes |')) for w in (1, 2, 3, 4, 5)}
 block = f"""<!-- seeded-table-begin -->
 {len(rows)} mutants written by independent sub-agents (each saw only the property text and a scratch worktree) are
 kept under `/verif/seeded/<name>/` (patch.diff, the agent's demonstration, meta.json, confirm.txt).
 Each was confirmed by `tools/confirm_mutant.sh`: the repository's suite stays at 32 passed with the
 mutant, the demonstration fails with it and passes without it, and `./check <id> quick` is run with
-the patch applied to /repo (reverted straight afterwards). They came in four waves of two per
-property: {len(waves[1])} in the first wave ({first[1]} caught by the checks as they stood), {len(waves[2])} in a second wave written
+the patch applied to /repo (reverted straight afterwards). They came in waves of two per
+property (the fifth: one): {len(waves[1])} in the first wave ({first[1]} caught by the checks as they stood), {len(waves[2])} in a second wave written
 against the strengthened checks and the repaired tree (`-w2-` in the name; {first[2]} caught as they stood),
 {len(waves[3])} in a third wave whose authors were asked for interactions, stale state and order dependence
 (`-w3-`; {first[3]} caught as they stood) and {len(waves[4])} in a fourth wave asked for unusual spellings of the same schema,
-boundary combinations and "the second of several" (`-w4-`; {first[4]} caught as they stood): {n_first} of {len(rows)} in total;
+boundary combinations and "the second of several" (`-w4-`; {first[4]} caught as they stood), and {len(waves[5])} in a
+fifth wave of one per property for eleven properties, asked for interactions of two features, order
+dependence and state carried from one component to the next (`-w5-`; {first[5]} caught as they stood): {n_first} of {len(rows)} in total;
 the others exposed a gap, the check was strengthened (what was added is in the `needs` column and in
 section 0), and they are caught now. No mutant is left uncaught. `tools/check_seeded.sh` re-validates
 all of them against the current /repo and the current checks (patch applies, suite green with it,
